@@ -36,6 +36,14 @@ type CommitOffsetProvider interface {
 	CommitOffset() int64
 }
 
+// DurableCommitOffsetProvider is implemented by the commit offset providers whose state machine is not
+// made durable at every commit. The log is the only durable copy of the entries that were applied since
+// the state was last persisted: they must not be trimmed before that state has been made durable.
+type DurableCommitOffsetProvider interface {
+	// DurableCommitOffset makes the applied state durable and returns the highest offset it covers.
+	DurableCommitOffset() (int64, error)
+}
+
 type Trimmer interface {
 	io.Closer
 }
@@ -156,6 +164,17 @@ func (t *trimmer) doTrim() error {
 	commitOffset := t.commitOffsetProvider.CommitOffset()
 	if commitOffset < trimOffset {
 		trimOffset = commitOffset
+	}
+
+	// Nor past what the state machine has on disk, or a crash would lose the entries in between
+	if provider, ok := t.commitOffsetProvider.(DurableCommitOffsetProvider); ok && trimOffset > t.wal.FirstOffset() {
+		durableOffset, err := provider.DurableCommitOffset()
+		if err != nil {
+			return errors.Wrap(err, "failed to persist the state before trimming the wal")
+		}
+		if durableOffset < trimOffset {
+			trimOffset = durableOffset
+		}
 	}
 
 	err = t.wal.trim(trimOffset)
